@@ -1,11 +1,25 @@
 from __future__ import annotations
 
+import re
 from decimal import Decimal
 from typing import Protocol, Any
 
 from . import isoduration
 
 STRICT_VALUE_CHECK = True
+
+_XSD_WHITESPACE = ' \t\r\n'
+_INTEGER_PATTERN = re.compile(r'[+-]?[0-9]+')
+_UNSIGNED_PATTERN = re.compile(r'\+?[0-9]+|-0+')
+_DECIMAL_PATTERN = re.compile(r'[+-]?(?:[0-9]+(?:\.[0-9]*)?|\.[0-9]+)')
+
+
+def _check_lexical(xml_value: str, pattern: re.Pattern, type_name: str) -> str:
+    """Return whitespace collapsed xml_value, raise ValueError if it is not in the lexical space of the type."""
+    xml_value = xml_value.strip(_XSD_WHITESPACE)
+    if pattern.fullmatch(xml_value) is None:
+        raise ValueError(f'{xml_value!r} is not a valid {type_name}')
+    return xml_value
 
 
 class DataConverterProtocol(Protocol):
@@ -128,7 +142,7 @@ class TimestampConverter(NullConverter):
     def to_py(cls, xml_value: str) -> float | None:
         if xml_value is None:
             return None
-        return int(xml_value) / 1000
+        return int(_check_lexical(xml_value, _UNSIGNED_PATTERN, 'unsigned integer')) / 1000
 
     @staticmethod
     def to_xml(py_value) -> str:
@@ -150,6 +164,7 @@ class DecimalConverter(NullConverter):
     def to_py(cls, xml_value: str) -> Decimal | int | float:
         if xml_value is None:
             return None
+        xml_value = _check_lexical(xml_value, _DECIMAL_PATTERN, 'decimal')
         if cls.USE_DECIMAL_TYPE:
             return Decimal(xml_value)
         if '.' in xml_value:
@@ -212,7 +227,7 @@ class IntegerConverter(NullConverter):
     def to_py(xml_value: str) -> int:
         if xml_value is None:
             return None
-        return int(xml_value)
+        return int(_check_lexical(xml_value, _INTEGER_PATTERN, 'integer'))
 
     @staticmethod
     def to_xml(py_value: int) -> str:
